@@ -308,11 +308,13 @@ def digitsVal : Bytes → Option Nat
   | c :: cs => if 48 ≤ c && c ≤ 57 then
       (digitsVal cs).map (fun r => (c.toNat - 48) * 10 ^ cs.length + r) else none
 
+def stripPlus : Bytes → Bytes
+  | 43 :: r => r
+  | s => s
+
 /-- `u32::from_str`: optional `+`, at least one decimal digit, value below 2^32 -/
 def parseSid (seg : Bytes) : Option Nat :=
-  let ds := match seg with
-    | 43 :: r => r
-    | s => s
+  let ds := stripPlus seg
   if ds.isEmpty then none
   else match digitsVal ds with
     | some n => if n < 4294967296 then some n else none
@@ -392,9 +394,19 @@ def sendForm (e : OutEvent) : List (Bytes × Bytes) :=
 /-- the request body `send` emits -/
 def sendBody (e : OutEvent) : Bytes := formEncode (sendForm e)
 
-/-- `http://localhost:5555/scxml/` ++ decimal session id -/
+def digitChar (d : Nat) : UInt8 := UInt8.ofNat (48 + d)
+
+/-- decimal digits of `n` in front of `acc` (`u32::to_string`); `fuel > n` is always enough -/
+def decimalAux : Nat → Nat → Bytes → Bytes
+  | 0, _, acc => acc
+  | fuel + 1, n, acc =>
+    if n < 10 then digitChar n :: acc else decimalAux fuel (n / 10) (digitChar (n % 10) :: acc)
+
+def decimal (n : Nat) : Bytes := decimalAux (n + 1) n []
+
+/-- `format!("{}{}", "http://localhost:5555/scxml/", id)` -/
 def locationOf (sid : Nat) : Bytes :=
-  asciiBytes "http://localhost:5555/scxml/" ++ asciiBytes (toString sid)
+  asciiBytes "http://localhost:5555/scxml/" ++ decimal sid
 
 /-! ## the statement read directly (oracle for implementation output) -/
 
